@@ -290,6 +290,10 @@ func checkWriteBack(w *world) (string, error) {
 		if v.Gen != before.Gen || v.Val != before.Gen*10+int(v.ID) {
 			return "clobbered", fmt.Errorf("at %v the reconciler's write (rev %d) left object %d with (val %d gen %d) but the user's last write before it (rev %d) had gen %d: it must change nothing but the status; calls:%s", v.At, v.Rev, v.ID, v.Val, v.Gen, before.Rev, before.Gen, w.dump())
 		}
+		// ... including the status entries of other reconcilers
+		if v.Prev != nil && v.Prev.Present && v.Other != v.Prev.Other {
+			return "foreign-status-clobbered", fmt.Errorf("at %v the reconciler's write (rev %d) changed the status recorded for reconciler \"b\" on object %d from %v to %v: it must change nothing but its own status; calls:%s", v.At, v.Rev, v.ID, v.Prev.Other, v.Other, w.dump())
+		}
 		if v.Kind == reconciler.StatusKindRefreshing && w.c.RefreshMs > 0 {
 			continue // the refresher marks Done objects for another Update: a status-only write
 		}
